@@ -222,6 +222,16 @@ def run_case(case):
                                    ks=Dks, **det)
                 except Exception:
                     pass
+        # ---- StandardNormal documents that only the SIZE of a context matters: any tensor with the right number of rows
+        #      (class labels, a mask, another float width) must do
+        if kind == "dist" and cfg["dist"] == "standard":
+            for cname, cc_ in (("int64", torch.arange(6).reshape(3, 2)), ("bool", torch.tensor([[True], [False], [True]])),
+                               ("float64", torch.zeros(3, 2, dtype=torch.float64)), ("float32", torch.zeros(3, 2, dtype=torch.float32))):
+                out_ = attempt("sample(context dtype)", lambda: obj.sample(2, cc_), {"ctx": cname, "bs": "none"})
+                attempt("sample_and_log_prob(context dtype)", lambda: obj.sample_and_log_prob(2, cc_), {"ctx": cname})
+                if out_ is not None and out_.dtype != torch.get_default_dtype():
+                    r.viol("shape_contract", "%s.sample draws in the dtype of the context, whose values are documented as ignored" % label,
+                           context_dtype=cname, got=str(out_.dtype), **det)
         # ---- documented rejections
         x, c = mk(3, seed + 2)
         if me["ctx_shape"]:
